@@ -37,6 +37,11 @@ func PeriodsIntersect(p1, p2 *time.Period) bool {
 	p1lower, p1upper := cutPeriod(p1)
 	p2lower, p2upper := cutPeriod(p2)
 
+	// a period that is empty (or inverted) encloses no non-empty period at all
+	if p1lower.CompareTo(p1upper) >= 0 || p2lower.CompareTo(p2upper) >= 0 {
+		return false
+	}
+
 	return p1lower.CompareTo(p2upper) < 0 &&
 		p2lower.CompareTo(p1upper) < 0
 }
